@@ -367,30 +367,9 @@ impl EncodingVersion for EncodingVersion1 {
         deserializer: &mut XTypesDeserializer<'a, E, Self>,
         dynamic_data: &mut DynamicData,
     ) -> XTypesResult<()> {
-        let dynamic_type = dynamic_data.r#type();
-        // Deserialize the discriminator
-        let disc_member = dynamic_type.get_member_by_index(0)?;
-        Self::deserialize_mmember(deserializer, disc_member, dynamic_data)?;
-
-        // The discriminator value represents the id of a member
-        let disc_id = get_discriminator_id_as_i32(dynamic_data)?;
-
-        let mut default_member = None;
-        for member_index in 0..dynamic_type.get_member_count() {
-            let member = dynamic_type.get_member_by_index(member_index)?;
-            // Deserialize the member based on its discriminator
-            if member.descriptor.label.contains(&disc_id) {
-                return Self::deserialize_mmember(deserializer, member, dynamic_data);
-            }
-            if member.descriptor.is_default_label {
-                default_member = Some(member);
-            }
-        }
-        if let Some(member) = default_member {
-            return Self::deserialize_mmember(deserializer, member, dynamic_data);
-        }
-
-        // The discriminator selects no member: only the discriminator was serialized
+        deserializer.deserialize_munion_members(dynamic_data)?;
+        // The members are looked up from the start of the list: continue after the sentinel
+        Self::seek_to_pid(deserializer, PID_SENTINEL)?;
         Ok(())
     }
 
@@ -567,33 +546,8 @@ impl EncodingVersion for EncodingVersion2 {
         deserializer: &mut XTypesDeserializer<'a, E, Self>,
         dynamic_data: &mut DynamicData,
     ) -> XTypesResult<()> {
-        let _dheader = deserializer.deserialize_primitive_type::<u32>();
-
-        let dynamic_type = dynamic_data.r#type();
-        // Deserialize the discriminator
-        let disc_member = dynamic_type.get_member_by_index(0)?;
-        Self::deserialize_mmember(deserializer, disc_member, dynamic_data)?;
-
-        // The discriminator value represents the id of a member
-        let disc_id = get_discriminator_id_as_i32(dynamic_data)?;
-
-        let mut default_member = None;
-        for member_index in 0..dynamic_type.get_member_count() {
-            let member = dynamic_type.get_member_by_index(member_index)?;
-            // Deserialize the member based on its discriminator
-            if member.descriptor.label.contains(&disc_id) {
-                return Self::deserialize_mmember(deserializer, member, dynamic_data);
-            }
-            if member.descriptor.is_default_label {
-                default_member = Some(member);
-            }
-        }
-        if let Some(member) = default_member {
-            return Self::deserialize_mmember(deserializer, member, dynamic_data);
-        }
-
-        // The discriminator selects no member: only the discriminator was serialized
-        Ok(())
+        // The members are looked up from the start of the list: continue after the delimited part
+        deserializer.deserialize_delimited(|d| d.deserialize_munion_members(dynamic_data))
     }
 
     /// Extensibility APPENDABLE (Collection or Aggregated types), version 2
@@ -726,6 +680,35 @@ impl<'a, E: EndiannessRead, V: EncodingVersion> XTypesDeserializer<'a, E, V> {
             _endianness: endianness,
             _encoding_version: encoding_version,
         }
+    }
+
+    /// Serialization rule: { O.disc : MMEMBER } { O.selected_member : MMEMBER }?
+    fn deserialize_munion_members(&mut self, dynamic_data: &mut DynamicData) -> XTypesResult<()> {
+        let dynamic_type = dynamic_data.r#type();
+        // Deserialize the discriminator
+        let disc_member = dynamic_type.get_member_by_index(0)?;
+        V::deserialize_mmember(self, disc_member, dynamic_data)?;
+
+        // The discriminator value represents the id of a member
+        let disc_id = get_discriminator_id_as_i32(dynamic_data)?;
+
+        let mut default_member = None;
+        for member_index in 0..dynamic_type.get_member_count() {
+            let member = dynamic_type.get_member_by_index(member_index)?;
+            // Deserialize the member based on its discriminator
+            if member.descriptor.label.contains(&disc_id) {
+                return V::deserialize_mmember(self, member, dynamic_data);
+            }
+            if member.descriptor.is_default_label {
+                default_member = Some(member);
+            }
+        }
+        if let Some(member) = default_member {
+            return V::deserialize_mmember(self, member, dynamic_data);
+        }
+
+        // The discriminator selects no member: only the discriminator was serialized
+        Ok(())
     }
 
     /// Serialization rule: { O.member[i] : MMEMBER }*
